@@ -101,5 +101,6 @@ pub fn tag_tree(src: &str) -> String {
     let mut s = tc::stringify::Stringifier::new(String::new(), "p", src);
     template.stringify_write(&mut s).expect("stringify failed");
     let out = s.finish().0;
-    json!({"ast": ast, "printed": out}).to_string()
+    let deps: Vec<String> = template.direct_dependencies().collect();
+    json!({"ast": ast, "printed": out, "deps": deps}).to_string()
 }
